@@ -142,6 +142,12 @@ pub trait DeepRead {
     fn hop(&mut self, _op: &HOp) -> String {
         "bad".into()
     }
+    /// equality (C11): compares the value with a fresh container of the same contents built in a buffer
+    /// of the same size filled with different garbage (must be equal, both ways) and with one whose contents
+    /// differ (must not be equal).  None: not a FlatVec / FlatString.
+    fn eq_oracle(&self) -> Option<String> {
+        None
+    }
     /// FlexVec::push_default for item types that implement FlatDefault (None: not available)
     fn push_default_to<L: Flat + Length>(_v: &mut FlexVec<Self, L>) -> Option<Result<(), Error>>
     where
@@ -417,7 +423,22 @@ unsafe impl<'a, T: FromSpec + Flat, const N: usize> Emplacer<[T; N]> for Dyn<'a>
     }
 }
 
-impl<T: DeepRead + FromSpec + Clone + Flat + Sized, L: Flat + Length> DeepRead for FlatVec<T, L> {
+impl<T: DeepRead + FromSpec + Clone + PartialEq + Flat + Sized, L: Flat + Length> DeepRead for FlatVec<T, L> {
+    fn eq_oracle(&self) -> Option<String> {
+        let n = self.as_bytes().len();
+        let mut a = Arena::new(0, &vec![0xeeu8; n], 0x11);
+        let fresh = match FlatVec::<T, L>::new_in_place(a.slice_mut(), vec::FromIterator(self.as_slice().iter().cloned())) {
+            Ok(f) => f,
+            Err(e) => return Some(format!("rebuild:{:?}", e.kind)),
+        };
+        if !(*fresh == *self && *self == *fresh) {
+            return Some("equal-contents-compare-unequal".into());
+        }
+        if fresh.pop().is_some() && (*fresh == *self || *self == *fresh) {
+            return Some("different-contents-compare-equal".into());
+        }
+        Some("ok".into())
+    }
     fn push_default_to<L2: Flat + Length>(v: &mut FlexVec<Self, L2>) -> Option<Result<(), Error>> {
         Some(v.push_default().map(|_| ()))
     }
@@ -509,6 +530,27 @@ unsafe impl<'a, T: FromSpec + Flat + Sized, L: Flat + Length> Emplacer<FlatVec<T
 }
 
 impl<L: Flat + Length> DeepRead for FlatString<L> {
+    fn eq_oracle(&self) -> Option<String> {
+        let n = self.as_bytes().len();
+        let mut a = Arena::new(0, &vec![0xeeu8; n], 0x11);
+        let fresh = match FlatString::<L>::new_in_place(a.slice_mut(), string::FromStr(self.as_str())) {
+            Ok(f) => f,
+            Err(e) => return Some(format!("rebuild:{:?}", e.kind)),
+        };
+        if !(*fresh == *self && *self == *fresh) {
+            return Some("equal-contents-compare-unequal".into());
+        }
+        let changed = if fresh.len() > 0 {
+            fresh.clear();
+            true
+        } else {
+            fresh.push('x').is_ok()
+        };
+        if changed && (*fresh == *self || *self == *fresh) {
+            return Some("different-contents-compare-equal".into());
+        }
+        Some("ok".into())
+    }
     fn push_default_to<L2: Flat + Length>(v: &mut FlexVec<Self, L2>) -> Option<Result<(), Error>> {
         Some(v.push_default().map(|_| ()))
     }
@@ -1011,11 +1053,16 @@ fn hist_obs<T: Probe + ?Sized>(a: &Arena) -> String {
     let bytes = a.slice();
     let mut o = String::new();
     let val = guarded(|| res_s(&T::validate(bytes)));
+    let mut eq_flag = false;
     write!(o, " val={} ", val).unwrap();
     if val == "ok" {
         let x = unsafe { T::from_bytes_unchecked(bytes) };
         let view = deep_s(x);
         write!(o, "view={} size={}", view, guarded(|| format!("ok:{}", x.size()))).unwrap();
+        eq_flag = match guarded(|| x.eq_oracle().unwrap_or_else(|| "ok".into())).as_str() {
+            "ok" => false,
+            _ => true,
+        };
         // truncate to size(): must map again to the same content
         let tv = guarded(|| {
             let n = x.size();
@@ -1057,5 +1104,8 @@ fn hist_obs<T: Probe + ?Sized>(a: &Arena) -> String {
         o.push_str("view=- size=- tv=- ab=-");
     }
     write!(o, " buf={}", bytes_to_hex(bytes)).unwrap();
+    if eq_flag {
+        o.push_str(" EQ-MISMATCH");
+    }
     o
 }
